@@ -461,10 +461,13 @@ func (c *Contracts) parseFile(prog *ssa.Program, p *packages.Package, sp *ssa.Pa
 					continue
 				}
 				key := sp.Pkg.Name() + "." + fs[1]
+				if strings.Count(fs[1], ".") == 2 {
+					key = fs[1] // an interface of another package, e.g. io.ReadCloser.Close
+				}
 				is := c.ifaces[key]
 				if is == nil {
-					parts := strings.SplitN(fs[1], ".", 2)
-					is = &IfaceSpec{Iface: sp.Pkg.Name() + "." + parts[0], Method: parts[1]}
+					k := strings.LastIndex(key, ".")
+					is = &IfaceSpec{Iface: key[:k], Method: key[k+1:]}
 					c.ifaces[key] = is
 				}
 				switch fs[2] {
